@@ -2643,9 +2643,12 @@ class VM:
             # Use synchronous execution (like _call_callback)
             return self._call_callback(getter, [], this_val)
         elif isinstance(getter, JSBoundMethod):
-            return getter(this_val)  # built-in accessor: takes its receiver
+            result = getter(this_val)  # built-in accessor: takes its receiver
+            return result if result is not None else UNDEFINED
         elif callable(getter):
-            return getter()
+            # native function: "no result" is undefined, as for a call
+            result = getter()
+            return result if result is not None else UNDEFINED
         return UNDEFINED
 
     def _invoke_setter(self, setter: Any, this_val: JSValue, value: JSValue) -> None:
